@@ -181,6 +181,11 @@ def detector_abort_sweep(chk: Check, n_contracts: int, n_k: int) -> None:
                     {"op": "rerun", "h": "X1", "dets": [], "runs": again, "s1": "id", "uid": 1},
                     {"op": "single", "c": cid, "dets": first, "runs": None, "s1": "id", "uid": 2},
                 ]
+                if ctx.depth_probes and idx % 3 == 0:
+                    # an aborted path search must not leave the interpreter's stack limit changed:
+                    # the calibrated pair sits a few frames on either side of it
+                    for c_ in ctx.depth_probes:
+                        ops.append({"op": "single", "c": c_, "dets": ["rekey-to", "can-close-account"], "runs": None, "s1": "id", "uid": len(ops)})
                 specs.append({"ops": ops, "hashseed": rng.choice(ctx.hashseeds), "index": 4000000 + idx, "faulty": True})
                 idx += 1
     t0 = time.time()
